@@ -79,7 +79,8 @@ def contains_identity(chk, prog, c, rule="handle-identity-check"):
             if v == I(0) and any(e[0] == "weak_dead" for e in o.ev):
                 continue        # the handle's set is gone: `false` without a comparison is right
             subs = list(_subterms(v))
-            is_cmp = (v[0] == "cmp" and v[1] == "Eq") or (v[0] == "app" and v[1] in ("Rc::ptr_eq", "Weak::ptr_eq"))
+            is_cmp = (v[0] == "cmp" and v[1] == "Eq") or (v[0] == "app" and v[1] in ("Rc::ptr_eq", "Weak::ptr_eq", "core::ptr::eq",
+                                                                                      "core::ptr::addr_eq"))
             own = any(s[0] == "app" and s[1] in ("Rc::as_ptr", "Rc::ptr_eq", "Rc::downgrade")
                       and any(x == ("valref", 1) for x in _subterms(s)) for s in subs if isinstance(s, tuple) and s)
             theirs = any(s[0] == "app" and s[1] in ("Weak::as_ptr", "Weak::ptr_eq", "Weak::upgrade")
@@ -119,6 +120,60 @@ def _short(v, depth=0):
     return "(" + ", ".join(_short(x, depth + 1) for x in v) + ")"
 
 
+def _well_formed_set(prog, st, hv, pos):
+    """Memory for a set that really issued the handle: the slot at the handle's index is occupied by the handle's
+    pointer (what stash establishes and only the drop of the last clone undoes). A fetch that re-validates the slot
+    (a conservative extra check) then sees what it would see at run time. Returns extra primitives, or {} when the
+    table's representation is not the reviewed one (the fetch contract is then judged without the memory)."""
+    INNER, SLOTS, SLOT = "dynamic_roots::Inner", "dynamic_roots::Slots", "dynamic_roots::Slot"
+    ai, asl, aslot = prog.all_adts.get(INNER), prog.all_adts.get(SLOTS), prog.all_adts.get(SLOT)
+    if not (ai and asl and aslot) or "index" not in pos or "ptr" not in pos:
+        return {}
+    vn = [v["name"] for v in aslot["variants"]]
+    if set(vn) != {"Vacant", "Occupied"}:
+        return {}
+    occ_i, vac_i = vn.index("Occupied"), vn.index("Vacant")
+    idx = hv[3][pos["index"]][1]
+    occ_fields = []
+    for f in aslot["variants"][occ_i]["fields"]:
+        occ_fields.append(hv[3][pos["ptr"]] if f.get("ty_s", "").startswith("gc::Gc<") else I(0))
+    vac = adt(SLOT, vac_i, tuple(("sym", "free_link") for _ in aslot["variants"][vac_i]["fields"]))
+    elems = tuple(adt(SLOT, occ_i, tuple(occ_fields)) if i == idx else vac for i in range(idx + 1))
+    st.mem[("slots",)] = adt(SLOTS, 0, tuple(("vec", elems) if f.get("ty_s", "").startswith("alloc::vec::Vec<") else ("sym", f["name"])
+                                             for f in asl["variants"][0]["fields"]))
+    st.mem[("inner",)] = adt(INNER, 0, tuple(ref(("slots",), ()) if f.get("ty_s", "").startswith("alloc::rc::Rc<") else ("sym", f["name"])
+                                             for f in ai["variants"][0]["fields"]))
+    st.mem[("set",)] = adt(SET, 0, (adt("gc::Gc", 0, (("obj", 1), UNIT)),))
+
+    def gc_deref(ip, st_, args, info):
+        return [(st_, "ret", ref(("inner",), ()))]
+
+    def rc_deref(ip, st_, args, info):
+        a = args[0]
+        if a[0] == "ref" and a[1] in st_.mem:
+            v = ip.read(st_, a[1], a[2])
+            if v[0] == "ref":
+                return [(st_, "ret", v)]
+        return NotImplemented
+
+    def ident_ref(ip, st_, args, info):
+        return [(st_, "ret", args[0])] if args[0][0] == "ref" and args[0][1] in st_.mem else NotImplemented
+
+    def slice_get(ip, st_, args, info):
+        r, i = args[0], args[1]
+        if r[0] == "ref" and r[1] in st_.mem and i[0] == "i":
+            v = ip.read(st_, r[1], r[2])
+            if v[0] == "vec":
+                if i[1] < len(v[1]):
+                    return [(st_, "ret", adt(OPT, 1, (ref(r[1], r[2] + (i[1],)),)))]
+                return [(st_, "ret", adt(OPT, 0, ()))]
+        return NotImplemented
+    return {"<gc::Gc as core::ops::deref::Deref>::deref": gc_deref, "gc::Gc::as_ref": gc_deref,
+            "<alloc::rc::Rc as core::ops::deref::Deref>::deref": rc_deref,
+            "<alloc::vec::Vec as core::ops::deref::Deref>::deref": ident_ref, "alloc::vec::Vec::as_slice": ident_ref,
+            "core::slice::<impl [T]>::get": slice_get}
+
+
 def fetch_rules(chk, prog, c=None, rule="fetch-contract"):
     """fetch / try_fetch hand out (re-brand) the handle's pointer exactly when contains() said yes."""
     hv, pos = handle_value(prog)
@@ -129,11 +184,12 @@ def fetch_rules(chk, prog, c=None, rule="fetch-contract"):
             def contains(ip, st, args, info, ans=ans):
                 st.event("contains_called")
                 return [(st, "ret", I(ans))]
-            ip = Interp(prog, prims={SET + "::contains": contains}, strict=True)
-            ip.lenient_std = True
             st = State()
             st.mem[("h",)] = hv
             st.mem[("set",)] = ("sym", "set")
+            extra = _well_formed_set(prog, st, hv, pos) if ans else {}
+            ip = Interp(prog, prims=dict(extra, **{SET + "::contains": contains}), strict=True)
+            ip.lenient_std = True
             name = "%s(contains=%s)%s" % (fn.split("::")[-1], bool(ans), "[%s]" % c if c else "")
             try:
                 outs = ip.run(prog.seed_n[fn][0], [ref(("set",), ()), ref(("h",), ())], st)
